@@ -94,7 +94,8 @@ def generate(rng, tier, cls):
                 cfgs.append([pad, rng.choice([96, 96, 1, 64, 4096]), 'sim',
                              None, 0])
 
-    return {'actors': [prod], 'schedule': [], 'faults': [], 'configs': cfgs}
+    return {'actors': [prod], 'schedule': [], 'faults': [], 'configs': cfgs,
+            'stream_extras': gen.gen_stream_extras(rng)}
 
 
 def sweep_tasks(tier, master):
@@ -209,8 +210,11 @@ def execute(scn, L):
                  else 0, 'key': 'pad', 'value': 'x' * pad}],
                 actors[0]['file'])
 
-        recs, end, exc = read_all(wk, data, block_size=bs, stream=kind,
-                                  buf=buf, actor='cfg')
+        sx = scn.get('stream_extras') or {}
+        recs, end, exc = read_all(
+            wk, data, block_size=bs, stream=kind, buf=buf, actor='cfg',
+            prefix=sx.get('prefix', 0) if isinstance(sx.get('prefix', 0), int)
+            else 0, late_rewind=bool(sx.get('late_rewind')))
         out.absorb(wk)
         out.evals += 1
         info = {'pad': pad, 'block_size': bs, 'stream': kind, 'buf': buf,
